@@ -156,6 +156,12 @@ func (bkt *Bucket) checkHintWithData(chunkID int) (err error) {
 		bkt.hints.RemoveHintfilesByChunk(chunkID)
 		return
 	}
+	// hint lookups walk chunks maxChunkID..0, so chunks found at startup must count
+	bkt.hints.Lock()
+	if chunkID > bkt.hints.maxChunkID {
+		bkt.hints.maxChunkID = chunkID
+	}
+	bkt.hints.Unlock()
 	hintDataSize := bkt.hints.loadHintsByChunk(chunkID)
 	if hintDataSize < size {
 		err = bkt.buildHintFromData(chunkID, hintDataSize)
